@@ -259,6 +259,30 @@ func vpC09ChgPopulated(ti int, only []string) {
 }
 
 func vpH_C09_chg_populated_Object() { vpC09ChgPopulated(vpTypeIndex("Object"), nil) }
+
+// the object core of every other type, fully populated (actor boxes, collection members, place
+// numbers... all set and equal): a changed core property still makes the copy unequal
+var vpC09Core = []string{"Name", "Summary", "Content", "Attachment", "AttributedTo", "Audience", "Context", "Generator", "Icon", "Image", "InReplyTo", "Location", "Preview", "Published", "Updated", "StartTime", "EndTime", "Duration", "Replies", "Tag", "URL", "To", "Bto", "CC", "BCC", "Likes", "Shares"}
+
+func vpH_C09_chg_populated_Actor() { vpC09ChgPopulated(vpTypeIndex("Actor"), vpC09Core) }
+func vpH_C09_chg_populated_others() {
+	vpC09ChgPopulated(3+vpChoice(len(vpTypeNames)-4), vpC09Core) // all but Object, Actor, Activity and Link
+}
+
+// a different id or type on a fully populated value of any type
+func vpH_C09_chg_populated_id() {
+	ti := vpChoice(len(vpTypeNames) - 1)
+	x := vpPopulated(ti)
+	y := vpCloneItem(x)
+	if vpBool() {
+		vpSetField(y, 0, 0, 'j')
+	} else {
+		_ = OnObject(y, func(o *Object) error { o.Type = VideoType; return nil })
+	}
+	cell := vpTypeNames[ti]
+	vpAssert("populated/id-or-type-changed-unequal/"+cell, !ItemsEqual(x, y) && !ItemsEqual(y, x))
+	vpReach("end")
+}
 func vpH_C09_chg_populated_Activity() {
 	vpC09ChgPopulated(vpTypeIndex("Activity"), []string{"Actor", "Object", "Target", "Result", "Origin", "Instrument"})
 }
